@@ -31,7 +31,7 @@ def bounds(tier):
 
 
 def goals(tier):
-    return ["spelling-in-another-container", "mixed-case-between-records", "region-lowered", "region-raised", "per-letter-overhang", "error-MissingModule", "error-DuplicateModules",
+    return ["spelling-in-another-container", "spelling-of-rotated-plasmids", "per-letter-palindromic-junction", "mixed-case-between-records", "region-lowered", "region-raised", "per-letter-overhang", "error-MissingModule", "error-DuplicateModules",
             "error-InvalidSequence", "typing-accepts", "typing-rejects", "alternating", "per-letter-equal-vector-overhangs", "ambiguity-code-N-in-either-case"]
 
 
@@ -115,6 +115,50 @@ def compare(st, sub, enz, upper_strings, cased_strings, scn, ref_cache):
     return ref
 
 
+def letters_for_base(st, enz, k, g, base, pj, cache):
+    vec, mods = asm.pieces_to_plasmids(base)
+    up = [vec.upper()] + [m.upper() for m in mods]
+    # junction j: module j's o5 and (vector down if j == 0 else module j-1's o3); junction k: module k-1's o3 and vector up
+    L = len(g.site)
+    for j in range(k + 1):
+        occ = []
+        if j == 0:
+            occ.append((0, g.ov + len(base["vbb"])))
+        elif j < k + 1 and j >= 1:
+            body = len(base["bodies"][j - 1])
+            occ.append((j, L + g.off + g.ov + body))
+        if j < k:
+            occ.append((j + 1, L + g.off))
+        else:
+            occ.append((0, 0))
+        masks = list(itertools.product((0, 1), repeat=g.ov))
+        for ma in masks:
+            for mb in masks:
+                cased = list(up)
+                for (which, start), mask in zip(occ, (ma, mb)):
+                    s = cased[which]
+                    seg = "".join(c.lower() if bit else c for c, bit in zip(s[start:start + g.ov], mask))
+                    cased[which] = s[:start] + seg + s[start + g.ov:]
+                compare(st, "letters", enz, up, cased, dict(family="letters", enz=enz, k=k, junction=j, masks=[list(ma), list(mb)], palindromic_junction=pj), cache)
+                st.goal("per-letter-overhang")
+    # a vector whose two overhangs coincide must be refused whatever the spelling of either occurrence
+    if k == 1 and pj is None:
+        eq = dict(base, ovs=[base["ovs"][0], base["ovs"][0]])
+        vec2, mods2 = asm.pieces_to_plasmids(eq)
+        up2 = [vec2.upper(), mods2[0].upper()]
+        masks = list(itertools.product((0, 1), repeat=g.ov))
+        occ = [(0, 0), (0, g.ov + len(base["vbb"]))]
+        for ma in masks:
+            for mb in masks:
+                cased = list(up2)
+                for (which, start), mask in zip(occ, (ma, mb)):
+                    s = cased[which]
+                    seg = "".join(c.lower() if bit else c for c, bit in zip(s[start:start + g.ov], mask))
+                    cased[which] = s[:start] + seg + s[start + g.ov:]
+                compare(st, "letters", enz, up2, cased, dict(family="letters", enz=enz, k=k, junction="vector-with-equal-overhangs", masks=[list(ma), list(mb)]), cache)
+                st.goal("per-letter-equal-vector-overhangs")
+
+
 def units(tier):
     us = []
     for enz in ENZ:
@@ -151,6 +195,20 @@ def run_unit(unit, st, tier):
             for conts in (["mutable"] * (k + 1), ["annotated"] * (k + 1), ["mutable"] + ["seq"] * k, ["seq"] + ["mutable"] * k):
                 compare(st, "assembly", enz, up, cased, dict(family="assembly", enz=enz, k=k, case=list(combo), containers=conts), cache)
                 st.goal("spelling-in-another-container")
+            # the same spellings with every plasmid stored at another rotation: origin inside each one's first overhang, inside its
+            # first site, and in the middle of the record (the spelling is applied first, then the rotation)
+            g_ = gen.geometry_of(gen.enzyme(enz))
+            for where in ("overhang", "site", "middle"):
+                rots = []
+                for j, s_ in enumerate(up):
+                    first_ov = 0 if j == 0 else len(g_.site) + g_.off
+                    first_site = (g_.ov + len(base["vbb"]) + g_.ov + g_.off) if j == 0 else 0
+                    p_ = {"overhang": first_ov + max(1, g_.ov // 2), "site": first_site + 2, "middle": len(s_) // 2}[where]
+                    rots.append((len(s_) - p_) % len(s_))
+                up_r = [rm.rot_right(s_, r_) for s_, r_ in zip(up, rots)]
+                cased_r = [rm.rot_right(s_, r_) for s_, r_ in zip(cased, rots)]
+                compare(st, "assembly", enz, up_r, cased_r, dict(family="assembly", enz=enz, k=k, case=list(combo), origin_in=where), cache)
+                st.goal("spelling-of-rotated-plasmids")
             if len(set(combo)) > 1:
                 st.goal("mixed-case-between-records")
             if "A0" in combo or "A1" in combo:
@@ -185,48 +243,16 @@ def run_unit(unit, st, tier):
         g = gen.geometry_of(gen.enzyme(enz))
         M, V = gen.generic_classes(enz)
         gen.prime([M, V])
-        base = asm.base_scenario(enz, k)
-        vec, mods = asm.pieces_to_plasmids(base)
-        up = [vec.upper()] + [m.upper() for m in mods]
-        # junction j: module j's o5 and (vector down if j == 0 else module j-1's o3); junction k: module k-1's o3 and vector up
-        L = len(g.site)
-        for j in range(k + 1):
-            occ = []
-            if j == 0:
-                occ.append((0, g.ov + len(base["vbb"])))
-            elif j < k + 1 and j >= 1:
-                body = len(base["bodies"][j - 1])
-                occ.append((j, L + g.off + g.ov + body))
-            if j < k:
-                occ.append((j + 1, L + g.off))
-            else:
-                occ.append((0, 0))
-            masks = list(itertools.product((0, 1), repeat=g.ov))
-            for ma in masks:
-                for mb in masks:
-                    cased = list(up)
-                    for (which, start), mask in zip(occ, (ma, mb)):
-                        s = cased[which]
-                        seg = "".join(c.lower() if bit else c for c, bit in zip(s[start:start + g.ov], mask))
-                        cased[which] = s[:start] + seg + s[start + g.ov:]
-                    compare(st, "letters", enz, up, cased, dict(family="letters", enz=enz, k=k, junction=j, masks=[list(ma), list(mb)]), cache)
-                    st.goal("per-letter-overhang")
-        # a vector whose two overhangs coincide must be refused whatever the spelling of either occurrence
-        if k == 1:
-            eq = dict(base, ovs=[base["ovs"][0], base["ovs"][0]])
-            vec2, mods2 = asm.pieces_to_plasmids(eq)
-            up2 = [vec2.upper(), mods2[0].upper()]
-            masks = list(itertools.product((0, 1), repeat=g.ov))
-            occ = [(0, 0), (0, g.ov + len(base["vbb"]))]
-            for ma in masks:
-                for mb in masks:
-                    cased = list(up2)
-                    for (which, start), mask in zip(occ, (ma, mb)):
-                        s = cased[which]
-                        seg = "".join(c.lower() if bit else c for c, bit in zip(s[start:start + g.ov], mask))
-                        cased[which] = s[:start] + seg + s[start + g.ov:]
-                    compare(st, "letters", enz, up2, cased, dict(family="letters", enz=enz, k=k, junction="vector-with-equal-overhangs", masks=[list(ma), list(mb)]), cache)
-                    st.goal("per-letter-equal-vector-overhangs")
+        # the plain base scenario, and the ones with a palindromic junction overhang (first / last junction)
+        bases = [(None, asm.base_scenario(enz, k))]
+        if g.ov % 2 == 0:
+            for pj in sorted({0, k - 1}):
+                b_ = asm.base_scenario(enz, k, palindromic_junction=pj)
+                if b_ is not None and asm.well_formed(b_)[0]:
+                    bases.append((pj, b_))
+                    st.goal("per-letter-palindromic-junction")
+        for pj, base in bases:
+            letters_for_base(st, enz, k, g, base, pj, cache)
         st.sample(dict(family="letters", enz=enz, k=k, junction=0, masks=[[1, 0, 0, 0][: g.ov], [0] * g.ov]))
     elif kind == "errors":
         from . import c03
@@ -248,7 +274,8 @@ def run_unit(unit, st, tier):
                             st.filtered += 1
                             continue
                         up = [vs[0].upper()] + [m[0].upper() for m in ms]
-                        for combo in itertools.product("UL", repeat=k + 1):
+                        # per record: upper, lower, or its first half in lower case (its two overhangs then differ in spelling)
+                        for combo in itertools.product(["U", "L", "P3"], repeat=k + 1):
                             if set(combo) == {"U"}:
                                 continue
                             cased = [transform(s, t) for s, t in zip(up, combo)]
